@@ -51,6 +51,30 @@ def retrieveCmd (op : String) (uris : List Str) (mid : Str) (rest : List String)
     match optStr a, optStr b, optStr c, parseFilter ft with
     | some a, some b, some c, some f => some (outRes mid (Retrieve.createSubscription caps f a b c))
     | _, _, _, _ => some "bad-args"
+  | "schema", [i, v, f] =>
+    match tokStr i, optStr v, optStr f with
+    | some i, some v, some f => some (outRes mid (Retrieve.getSchema i v f))
+    | _, _, _ => some "bad-args"
+  | "poweroff", [] => some (outRes mid (Retrieve.build caps .poweroff))
+  | "reboot", [] => some (outRes mid (Retrieve.build caps .reboot))
+  | "validateel", toks => match xdNode 100000 toks with
+    | some (c, []) => some (outRes mid (Retrieve.validateEl caps c))
+    | _ => some "bad-args"
+  | "copyel", t :: toks => match tokStr t, xdNode 100000 toks with
+    | some t, some (c, []) => some (outRes mid (Retrieve.copyConfigEl caps t c))
+    | _, _ => some "bad-args"
+  | "rpc", cmd :: t :: src :: "cfg" :: rest =>
+    -- `rpc <cmd> <target|-> <source|-> cfg <tree…> flt <filter tokens…>` (configuration element first: its token count is self-delimiting)
+    match tokStr cmd, optStr t, optStr src, xdNode 100000 rest with
+    | some cmd, some t, some src, some (c, "flt" :: ft) =>
+      match parseFilter ft with
+      | some f => some (outRes mid (Retrieve.genericRpc caps cmd t src f (some c)))
+      | none => some "bad-args"
+    | _, _, _, _ => some "bad-args"
+  | "rpc", cmd :: t :: src :: "nocfg" :: "flt" :: ft =>
+    match tokStr cmd, optStr t, optStr src, parseFilter ft with
+    | some cmd, some t, some src, some f => some (outRes mid (Retrieve.genericRpc caps cmd t src f none))
+    | _, _, _, _ => some "bad-args"
   | _, _ => none
 
 /-- `bd <op> <server capability URIs> <message-id> <args…>` → `ok <serialised <rpc>> <parameter names>` | `err operation|missing <cap>|value` -/
